@@ -2,7 +2,7 @@
 
    Gen/GateSites.v is REGENERATED from the non-test code of /repo/src/**/*.rs on every run of the C02 check
    (gen/gen_gates.py) and pinned by C02_gate_inventory (Properties/C02.v).  [table] has one row per inventory
-   entry, in the same (sorted) order:
+   KEY of the inventory ([GateSites.keys]: gate = fn consults flag, carry, const), in the same (sorted) order:
      Gate flag rendering witness   a flag test of the Rust code; [rendering] names the Gallina function and the
                                    test that models it, [witness] IS that function (so the name in the string
                                    cannot outlive the function it talks about)
@@ -43,230 +43,181 @@ Definition flags : list (string * N) := [
 Module Parser := CL.Model.Parser.
 Module Analysis := CL.Model.Analysis.
 
-Definition table : list (GateSites.site * role) := [
-  (("analysis/event_consumer", "RecipeCollector::in_step", ["INLINE_QUANTITIES"],
-    "self.extensions.contains(Extensions::INLINE_QUANTITIES)"),
-   Gate "INLINE_QUANTITIES"
-     "Analysis.in_step: x_inline x (aext_of: ext_has e X_INLINE_QUANTITIES)"
-     (wit (@Analysis.in_step)));
-  (("analysis/event_consumer", "RecipeCollector::ingredient", ["ADVANCED_UNITS"],
-    "self.extensions.contains(Extensions::ADVANCED_UNITS)"),
-   Gate "ADVANCED_UNITS"
-     "Analysis.ingredient: x_advanced x, last argument of link_reference (aext_of: ext_has e X_ADVANCED_UNITS)"
-     (wit (@Analysis.ingredient)));
-  (("analysis/event_consumer", "RecipeCollector::metadata", ["MODES"],
-    "self.extensions.contains(Extensions::MODES)"),
-   Gate "MODES"
-     "Analysis.metadata: x_modes x && key in brackets (aext_of: ext_has e X_MODES)"
-     (wit (@Analysis.metadata)));
-  (("analysis/event_consumer", "RecipeCollector::timer", ["ADVANCED_UNITS"],
-    "self.extensions.contains(Extensions::ADVANCED_UNITS)"),
-   Gate "ADVANCED_UNITS"
-     "Analysis.timer: x_advanced x && (text value or unit not of class time)"
-     (wit (@Analysis.timer)));
-  (("analysis/event_consumer", "parse_events", [],
-    "RecipeCollector{extensions}"),
+Definition table : list (GateSites.key * role) := [
+  (("carry", "analysis/event_consumer", "parse_events",
+    ""),
    Carrier
      "RecipeCollector stores the set: the [x : aext] section variable of Model/Analysis.v (Section Collector)");
-  (("analysis/event_consumer", "parse_events", [],
-    "fn(extensions: Extensions)"),
+  (("carry", "analysis/event_consumer", "struct RecipeCollector",
+    ""),
    Carrier
-     "declaration (field / parameter / return type): the set is stored and handed on, not inspected");
-  (("analysis/event_consumer", "struct RecipeCollector", [],
-    "extensions: Extensions"),
-   Carrier
-     "declaration (field / parameter / return type): the set is stored and handed on, not inspected");
-  (("lib", "-", [],
-    "impl Default for Extensions"),
+     "RecipeCollector stores the set: the [x : aext] section variable of Model/Analysis.v (Section Collector)");
+  (("carry", "lib", "-",
+    ""),
    NotAGate
      "the default set (all): a choice of the caller, the theorems quantify over every set");
-  (("lib", "CooklangParser::canonical", ["empty()"],
-    "Self::new(#0: Extensions::empty())"),
+  (("carry", "lib", "CooklangParser::canonical",
+    ""),
    NotAGate
-     "a constructor choosing a set (empty()): a choice of the caller, the theorems quantify over every set");
-  (("lib", "CooklangParser::extended", ["all()"],
-    "Self::new(#0: Extensions::all())"),
+     "a constructor choosing a set (all / empty): a choice of the caller, the theorems quantify over every set");
+  (("carry", "lib", "CooklangParser::extended",
+    ""),
    NotAGate
-     "a constructor choosing a set (all()): a choice of the caller, the theorems quantify over every set");
-  (("lib", "CooklangParser::extensions", [],
-    "fn() -> Extensions"),
+     "a constructor choosing a set (all / empty): a choice of the caller, the theorems quantify over every set");
+  (("carry", "lib", "CooklangParser::extensions",
+    ""),
    Carrier
-     "declaration (field / parameter / return type): the set is stored and handed on, not inspected");
-  (("lib", "CooklangParser::extensions", [],
-    "self.extensions"),
+     "CooklangParser stores the set it is given / returns it (getter): nothing is decided");
+  (("carry", "lib", "CooklangParser::new",
+    ""),
    Carrier
-     "getter CooklangParser::extensions: returns the stored set, no behaviour depends on it");
-  (("lib", "CooklangParser::new", [],
-    "Self{extensions}"),
+     "CooklangParser stores the set it is given / returns it (getter): nothing is decided");
+  (("carry", "lib", "CooklangParser::parse_metadata_with_options",
+    ""),
    Carrier
-     "CooklangParser stores the set it is given");
-  (("lib", "CooklangParser::new", [],
-    "fn(extensions: Extensions)"),
+     "the same set goes to the pull parser (p_ext of the pcfg of Parser.events) and to the analysis (aext_of (p_ext c), Proofs/C02Pipeline.v)");
+  (("carry", "lib", "CooklangParser::parse_with_options",
+    ""),
    Carrier
-     "declaration (field / parameter / return type): the set is stored and handed on, not inspected");
-  (("lib", "CooklangParser::parse_metadata_with_options", [],
-    "analysis::parse_events(#2: self.extensions)"),
-   Carrier
-     "the same set goes to the analysis: aext_of (p_ext c) in Proofs/C02Pipeline.v (x_modes, x_inline, x_advanced read off the one word)");
-  (("lib", "CooklangParser::parse_metadata_with_options", [],
-    "parser::PullParser::new(#1: self.extensions)"),
-   Carrier
-     "the same set goes to the pull parser: p_ext of the pcfg of Parser.events");
-  (("lib", "CooklangParser::parse_with_options", [],
-    "analysis::parse_events(#2: self.extensions)"),
-   Carrier
-     "the same set goes to the analysis: aext_of (p_ext c) in Proofs/C02Pipeline.v (x_modes, x_inline, x_advanced read off the one word)");
-  (("lib", "CooklangParser::parse_with_options", [],
-    "parser::PullParser::new(#1: self.extensions)"),
-   Carrier
-     "the same set goes to the pull parser: p_ext of the pcfg of Parser.events");
-  (("lib", "Extensions::default", ["all()"],
-    "Self::all()"),
+     "the same set goes to the pull parser (p_ext of the pcfg of Parser.events) and to the analysis (aext_of (p_ext c), Proofs/C02Pipeline.v)");
+  (("carry", "lib", "Extensions::default",
+    ""),
    NotAGate
      "the default set (all): a choice of the caller, the theorems quantify over every set");
-  (("lib", "Extensions::default", [],
-    "fn() -> Self"),
-   NotAGate
-     "the default set (all): a choice of the caller, the theorems quantify over every set");
-  (("lib", "bitflags!", ["ADVANCED_UNITS"],
+  (("carry", "lib", "struct CooklangParser",
+    ""),
+   Carrier
+     "CooklangParser stores the set it is given / returns it (getter): nothing is decided");
+  (("carry", "parser/block_parser", "BlockParser::extension",
+    ""),
+   Carrier
+     "the one accessor of the parser, self.extensions.contains(ext): Parser.has x = ext_has (p_ext cfg) x; every parser gate goes through it");
+  (("carry", "parser/block_parser", "BlockParser::new",
+    ""),
+   Carrier
+     "the set reaches the block parser unchanged: p_ext of the one pcfg every function of Model/Parser.v reads through [has]");
+  (("carry", "parser/block_parser", "struct BlockParser",
+    ""),
+   Carrier
+     "the set reaches the block parser unchanged: p_ext of the one pcfg every function of Model/Parser.v reads through [has]");
+  (("carry", "parser/mod", "PullParser::new",
+    ""),
+   Carrier
+     "the set reaches the block parser unchanged: p_ext of the one pcfg every function of Model/Parser.v reads through [has]");
+  (("carry", "parser/mod", "PullParser::next_block",
+    ""),
+   Carrier
+     "the set reaches the block parser unchanged: p_ext of the one pcfg every function of Model/Parser.v reads through [has]");
+  (("carry", "parser/mod", "PullParser::next_metadata_block",
+    ""),
+   Carrier
+     "the set reaches the block parser unchanged: p_ext of the one pcfg every function of Model/Parser.v reads through [has]");
+  (("carry", "parser/mod", "struct PullParser",
+    ""),
+   Carrier
+     "the set reaches the block parser unchanged: p_ext of the one pcfg every function of Model/Parser.v reads through [has]");
+  (("const", "lib", "bitflags!",
     "const ADVANCED_UNITS = 1 << 5"),
    NotAGate
      "definition of the constant: Gen/ExtBits.v X_ADVANCED_UNITS, regenerated on every run (gen/gen_consts.py); C02_subsets_192 counts the sets over these values");
-  (("lib", "bitflags!", ["COMPAT"; "COMPONENT_MODIFIERS"; "COMPONENT_ALIAS"; "ADVANCED_UNITS"; "MODES"; "INLINE_QUANTITIES"; "RANGE_VALUES"; "INTERMEDIATE_PREPARATIONS"],
+  (("const", "lib", "bitflags!",
     "const COMPAT = Self::COMPONENT_MODIFIERS.bits() | Self::COMPONENT_ALIAS.bits() | Self::ADVANCED_UNITS.bits() | Self::MODES.bits() | Self::INLINE_QUANTITIES.bits() | Self::RANGE_VALUES.bits() | Self::INTERMEDIATE_PREPARATIONS.bits()"),
    NotAGate
      "definition of the constant: Gen/ExtBits.v X_COMPAT, regenerated on every run (gen/gen_consts.py); not one of the eight flags, never consulted by the crate");
-  (("lib", "bitflags!", ["COMPONENT_ALIAS"],
+  (("const", "lib", "bitflags!",
     "const COMPONENT_ALIAS = 1 << 3"),
    NotAGate
      "definition of the constant: Gen/ExtBits.v X_COMPONENT_ALIAS, regenerated on every run (gen/gen_consts.py); C02_subsets_192 counts the sets over these values");
-  (("lib", "bitflags!", ["COMPONENT_MODIFIERS"],
+  (("const", "lib", "bitflags!",
     "const COMPONENT_MODIFIERS = 1 << 1"),
    NotAGate
      "definition of the constant: Gen/ExtBits.v X_COMPONENT_MODIFIERS, regenerated on every run (gen/gen_consts.py); C02_subsets_192 counts the sets over these values");
-  (("lib", "bitflags!", ["INLINE_QUANTITIES"],
+  (("const", "lib", "bitflags!",
     "const INLINE_QUANTITIES = 1 << 7"),
    NotAGate
      "definition of the constant: Gen/ExtBits.v X_INLINE_QUANTITIES, regenerated on every run (gen/gen_consts.py); C02_subsets_192 counts the sets over these values");
-  (("lib", "bitflags!", ["INTERMEDIATE_PREPARATIONS"; "COMPONENT_MODIFIERS"],
+  (("const", "lib", "bitflags!",
     "const INTERMEDIATE_PREPARATIONS = 1 << 11 | Self::COMPONENT_MODIFIERS.bits()"),
    NotAGate
      "definition of the constant: Gen/ExtBits.v X_INTERMEDIATE_PREPARATIONS, regenerated on every run (gen/gen_consts.py); the COMPONENT_MODIFIERS bit it includes is read from the source, see ext_sets_intermediate_implies_modifiers in C02_subsets_192");
-  (("lib", "bitflags!", ["MODES"],
+  (("const", "lib", "bitflags!",
     "const MODES = 1 << 6"),
    NotAGate
      "definition of the constant: Gen/ExtBits.v X_MODES, regenerated on every run (gen/gen_consts.py); C02_subsets_192 counts the sets over these values");
-  (("lib", "bitflags!", ["RANGE_VALUES"],
+  (("const", "lib", "bitflags!",
     "const RANGE_VALUES = 1 << 9"),
    NotAGate
      "definition of the constant: Gen/ExtBits.v X_RANGE_VALUES, regenerated on every run (gen/gen_consts.py); C02_subsets_192 counts the sets over these values");
-  (("lib", "bitflags!", ["TIMER_REQUIRES_TIME"],
+  (("const", "lib", "bitflags!",
     "const TIMER_REQUIRES_TIME = 1 << 10"),
    NotAGate
      "definition of the constant: Gen/ExtBits.v X_TIMER_REQUIRES_TIME, regenerated on every run (gen/gen_consts.py); C02_subsets_192 counts the sets over these values");
-  (("lib", "bitflags!", [],
+  (("const", "lib", "bitflags!",
     "struct Extensions: u32"),
    NotAGate
      "the type: a word of 32 bits; the models carry it as N (p_ext, ext_has e x = (N.land e x =? x))");
-  (("lib", "struct CooklangParser", [],
-    "extensions: Extensions"),
-   Carrier
-     "declaration (field / parameter / return type): the set is stored and handed on, not inspected");
-  (("parser/block_parser", "BlockParser::extension", [],
-    "fn(ext: Extensions)"),
-   Carrier
-     "declaration (field / parameter / return type): the set is stored and handed on, not inspected");
-  (("parser/block_parser", "BlockParser::extension", [],
-    "self.extensions.contains(ext)"),
-   Carrier
-     "BlockParser::extension, the one accessor of the parser: Parser.has x = ext_has (p_ext cfg) x; every parser gate goes through it");
-  (("parser/block_parser", "BlockParser::new", [],
-    "Self{extensions}"),
-   Carrier
-     "the set reaches the block parser unchanged: p_ext of the one pcfg every function of Model/Parser.v reads through [has]");
-  (("parser/block_parser", "BlockParser::new", [],
-    "fn(extensions: Extensions)"),
-   Carrier
-     "declaration (field / parameter / return type): the set is stored and handed on, not inspected");
-  (("parser/block_parser", "struct BlockParser", [],
-    "extensions: Extensions"),
-   Carrier
-     "declaration (field / parameter / return type): the set is stored and handed on, not inspected");
-  (("parser/mod", "PullParser::new", [],
-    "Self{extensions}"),
-   Carrier
-     "the set reaches the block parser unchanged: p_ext of the one pcfg every function of Model/Parser.v reads through [has]");
-  (("parser/mod", "PullParser::new", [],
-    "Self{extensions}"),
-   Carrier
-     "the set reaches the block parser unchanged: p_ext of the one pcfg every function of Model/Parser.v reads through [has]");
-  (("parser/mod", "PullParser::new", [],
-    "fn(extensions: Extensions)"),
-   Carrier
-     "declaration (field / parameter / return type): the set is stored and handed on, not inspected");
-  (("parser/mod", "PullParser::next_block", [],
-    "BlockParser::new(#3: self.extensions)"),
-   Carrier
-     "the set reaches the block parser unchanged: p_ext of the one pcfg every function of Model/Parser.v reads through [has]");
-  (("parser/mod", "PullParser::next_metadata_block", [],
-    "BlockParser::new(#3: self.extensions)"),
-   Carrier
-     "the set reaches the block parser unchanged: p_ext of the one pcfg every function of Model/Parser.v reads through [has]");
-  (("parser/mod", "parse_block", ["MODES"],
-    "let modes_active = bp.extension(Extensions::MODES)"),
+  (("gate", "analysis/event_consumer", "RecipeCollector::in_step",
+    "INLINE_QUANTITIES"),
+   Gate "INLINE_QUANTITIES"
+     "Analysis.in_step: x_inline x (aext_of: ext_has e X_INLINE_QUANTITIES)"
+     (wit (@Analysis.in_step)));
+  (("gate", "analysis/event_consumer", "RecipeCollector::ingredient",
+    "ADVANCED_UNITS"),
+   Gate "ADVANCED_UNITS"
+     "Analysis.ingredient: x_advanced x, last argument of link_reference (aext_of: ext_has e X_ADVANCED_UNITS)"
+     (wit (@Analysis.ingredient)));
+  (("gate", "analysis/event_consumer", "RecipeCollector::metadata",
+    "MODES"),
    Gate "MODES"
-     "Parser.meta_kept: has X_MODES"
-     (wit (@Parser.meta_kept)));
-  (("parser/mod", "parse_block", ["MODES"],
-    "use modes_active: (is_config_key && modes_active) || old_style_metadata"),
+     "Analysis.metadata: x_modes x && key in brackets (aext_of: ext_has e X_MODES)"
+     (wit (@Analysis.metadata)));
+  (("gate", "analysis/event_consumer", "RecipeCollector::timer",
+    "ADVANCED_UNITS"),
+   Gate "ADVANCED_UNITS"
+     "Analysis.timer: x_advanced x && (text value or unit not of class time)"
+     (wit (@Analysis.timer)));
+  (("gate", "parser/mod", "parse_block",
+    "MODES"),
    Gate "MODES"
      "Parser.meta_kept: (is_config_key key && has X_MODES) || old_style"
      (wit (@Parser.meta_kept)));
-  (("parser/mod", "struct PullParser", [],
-    "extensions: Extensions"),
-   Carrier
-     "declaration (field / parameter / return type): the set is stored and handed on, not inspected");
-  (("parser/quantity", "parse_quantity", [],
-    "BlockParser::new(#3: bp.extensions)"),
-   Carrier
-     "the sub-block parser of the quantity gets the set of its parent: Parser.parse_quantity runs under the same cfg");
-  (("parser/quantity", "parse_quantity", ["ADVANCED_UNITS"],
-    "bp2.extension(Extensions::ADVANCED_UNITS)"),
+  (("gate", "parser/quantity", "parse_quantity",
+    "ADVANCED_UNITS"),
    Gate "ADVANCED_UNITS"
      "Parser.parse_quantity: if has X_ADVANCED_UNITS then parse_advanced_quantity first"
      (wit (@Parser.parse_quantity)));
-  (("parser/quantity", "range_value", ["RANGE_VALUES"],
-    "!bp.extension(Extensions::RANGE_VALUES)"),
+  (("gate", "parser/quantity", "range_value",
+    "RANGE_VALUES"),
    Gate "RANGE_VALUES"
      "Parser.range_value: if negb (has X_RANGE_VALUES) then None"
      (wit (@Parser.range_value)));
-  (("parser/step", "check_alias", ["COMPONENT_ALIAS"],
-    "!bp.extension(Extensions::COMPONENT_ALIAS)"),
+  (("gate", "parser/step", "check_alias",
+    "COMPONENT_ALIAS"),
    Gate "COMPONENT_ALIAS"
      "Parser.timer_p: if has X_COMPONENT_ALIAS then error D_ALIAS_NOT_ALLOWED at the first `|` (check_alias inlined at its one caller)"
      (wit (@Parser.timer_p)));
-  (("parser/step", "modifiers", ["COMPONENT_MODIFIERS"],
-    "!bp.extension(Extensions::COMPONENT_MODIFIERS)"),
+  (("gate", "parser/step", "modifiers",
+    "COMPONENT_MODIFIERS"),
    Gate "COMPONENT_MODIFIERS"
      "Parser.modifiers: if negb (has X_COMPONENT_MODIFIERS) then ret []"
      (wit (@Parser.modifiers)));
-  (("parser/step", "modifiers", ["INTERMEDIATE_PREPARATIONS"],
-    "bp.extension(Extensions::INTERMEDIATE_PREPARATIONS)"),
+  (("gate", "parser/step", "modifiers",
+    "INTERMEDIATE_PREPARATIONS"),
    Gate "INTERMEDIATE_PREPARATIONS"
      "Parser.modifiers_loop: after `&`: if has X_INTERMEDIATE_PREPARATIONS then with_recover (..)"
      (wit (@Parser.modifiers_loop)));
-  (("parser/step", "parse_alias", ["COMPONENT_ALIAS"],
-    "bp.extension(Extensions::COMPONENT_ALIAS)"),
+  (("gate", "parser/step", "parse_alias",
+    "COMPONENT_ALIAS"),
    Gate "COMPONENT_ALIAS"
      "Parser.parse_alias: if has X_COMPONENT_ALIAS then position of the first `|` else None"
      (wit (@Parser.parse_alias)));
-  (("parser/step", "parse_modifiers", ["INTERMEDIATE_PREPARATIONS"],
-    "bp.extension(Extensions::INTERMEDIATE_PREPARATIONS)"),
+  (("gate", "parser/step", "parse_modifiers",
+    "INTERMEDIATE_PREPARATIONS"),
    Gate "INTERMEDIATE_PREPARATIONS"
      "Parser.parse_mods_loop: tk_eqb (kind t) KAnd && has X_INTERMEDIATE_PREPARATIONS"
      (wit (@Parser.parse_mods_loop)));
-  (("parser/step", "timer", ["TIMER_REQUIRES_TIME"],
-    "bp.extension(Extensions::TIMER_REQUIRES_TIME)"),
+  (("gate", "parser/step", "timer",
+    "TIMER_REQUIRES_TIME"),
    Gate "TIMER_REQUIRES_TIME"
      "Parser.timer_p: quantity is None: if has X_TIMER_REQUIRES_TIME then error D_TIMER_NO_TIME"
      (wit (@Parser.timer_p)))
@@ -274,12 +225,13 @@ Definition table : list (GateSites.site * role) := [
 
 (* ---- the checks ---- *)
 Definition mem (s : string) (l : list string) : bool := existsb (String.eqb s) l.
-Definition site_file (s : GateSites.site) : string := let '(f, _, _, _) := s in f.
-Definition site_flags (s : GateSites.site) : list string := let '(_, _, fl, _) := s in fl.
+Definition key_class (k : GateSites.key) : string := let '(c, _, _, _) := k in c.
+Definition key_file (k : GateSites.key) : string := let '(_, f, _, _) := k in f.
+Definition key_detail (k : GateSites.key) : string := let '(_, _, _, d) := k in d.
 Definition starts_with (p s : string) : bool := String.eqb p (String.substring 0 (String.length p) s).
 (* the two stages the property is about: src/parser/** and src/analysis/** *)
-Definition in_stage (s : GateSites.site) : bool :=
-  starts_with "parser/" (site_file s) || starts_with "analysis/" (site_file s).
+Definition in_stage (k : GateSites.key) : bool :=
+  starts_with "parser/" (key_file k) || starts_with "analysis/" (key_file k).
 Definition is_gate_for (f : string) (r : role) : bool :=
   match r with Gate g _ _ => String.eqb f g | _ => false end.
 Definition is_gate (r : role) : bool := match r with Gate _ _ _ => true | _ => false end.
@@ -287,13 +239,12 @@ Definition is_gate (r : role) : bool := match r with Gate _ _ _ => true | _ => f
 (* a Gate row names an existing flag, and one the entry's source text mentions *)
 Definition gates_name_flags : bool :=
   forallb (fun row => match snd row with
-                      | Gate f _ _ => mem f (map fst flags) && mem f (site_flags (fst row))
+                      | Gate f _ _ => mem f (map fst flags) && String.eqb f (key_detail (fst row)) && String.eqb (key_class (fst row)) "gate"
                       | _ => true
                       end) table.
 (* in the parser and the analysis, an entry that mentions a flag is a gate (not explained away) *)
 Definition stage_flag_entries_are_gates : bool :=
-  forallb (fun row => if in_stage (fst row) && negb (match site_flags (fst row) with [] => true | _ => false end)
-                      then is_gate (snd row) else true) table.
+  forallb (fun row => if String.eqb (key_class (fst row)) "gate" then is_gate (snd row) else true) table.
 (* each of the eight flags is consulted somewhere in the parser or in the analysis *)
 Definition every_flag_gated : bool :=
   forallb (fun f => existsb (fun row => in_stage (fst row) && is_gate_for (fst f) (snd row)) table) flags.
@@ -302,7 +253,7 @@ Definition flag_values_distinct : bool :=
   Nat.eqb (List.length flags) 8 && Nat.eqb (List.length (nodup N.eq_dec (map snd flags))) 8
   && Nat.eqb (List.length (nodup string_dec (map fst flags))) 8.
 
-Lemma table_covers_inventory : map fst table = GateSites.sites.
+Lemma table_covers_inventory : map fst table = GateSites.keys.
 Proof. reflexivity. Qed.
 
 Lemma table_checks :
@@ -318,10 +269,10 @@ Qed.
 Lemma table_checks_spec :
   (forall row, In row table ->
      match snd row with
-     | Gate f _ _ => In f (map fst flags) /\ In f (site_flags (fst row))
+     | Gate f _ _ => In f (map fst flags) /\ key_detail (fst row) = f /\ key_class (fst row) = "gate"
      | _ => True
      end) /\
-  (forall row, In row table -> in_stage (fst row) = true -> site_flags (fst row) <> [] -> is_gate (snd row) = true) /\
+  (forall row, In row table -> key_class (fst row) = "gate" -> is_gate (snd row) = true) /\
   (forall f, In f (map fst flags) ->
      exists row, In row table /\ in_stage (fst row) = true /\ is_gate_for f (snd row) = true).
 Proof.
@@ -331,13 +282,16 @@ Proof.
   apply andb_prop in H. destruct H as [H1 H2].
   split; [|split].
   - intros row Hin. unfold gates_name_flags in H1. rewrite forallb_forall in H1. specialize (H1 row Hin).
-    destruct (snd row); auto. apply andb_prop in H1. destruct H1. split; apply mem_In; assumption.
-  - intros row Hin Hs Hf. unfold stage_flag_entries_are_gates in H2. rewrite forallb_forall in H2.
-    specialize (H2 row Hin). rewrite Hs in H2. destruct (site_flags (fst row)); [congruence|]. exact H2.
+    destruct (snd row); auto. apply andb_prop in H1. destruct H1 as [H1 Hc]. apply andb_prop in H1. destruct H1 as [Ha Hb].
+    split; [apply mem_In; assumption|]. split.
+    + apply String.eqb_eq in Hb. symmetry. exact Hb.
+    + apply String.eqb_eq in Hc. exact Hc.
+  - intros row Hin Hs. unfold stage_flag_entries_are_gates in H2. rewrite forallb_forall in H2.
+    specialize (H2 row Hin). rewrite Hs in H2. exact H2.
   - intros f Hf. unfold every_flag_gated in H3. rewrite forallb_forall in H3.
     apply in_map_iff in Hf. destruct Hf as [p [E Hp]]. specialize (H3 p Hp).
     rewrite existsb_exists in H3. destruct H3 as [row [Hr Hb]]. apply andb_prop in Hb. destruct Hb.
     exists row. subst f. auto.
 Qed.
 
-Definition gate_rows : list (GateSites.site * role) := filter (fun row => is_gate (snd row)) table.
+Definition gate_rows : list (GateSites.key * role) := filter (fun row => is_gate (snd row)) table.
